@@ -202,6 +202,10 @@ type rotCase struct {
 	// expectation
 	WantErr    bool `json:"want_err"`    // configuration must be refused
 	WantAccept bool `json:"want_accept"` // quote must verify (exact oracle)
+	// Paths are further cabundle_paths entries, relative to the case directory, for which no file is written (missing files,
+	// patterns); with ErrOrReject the configuration must be refused or, if it is taken, must not make the quote acceptable
+	Paths       []string `json:"paths,omitempty"`
+	ErrOrReject bool     `json:"err_or_reject,omitempty"`
 }
 
 func runRot(c *rotCase, dir string) (problem string, cfgErr bool, accepted bool) {
@@ -211,6 +215,9 @@ func runRot(c *rotCase, dir string) (problem string, cfgErr bool, accepted bool)
 		_ = os.WriteFile(p, []byte(f), 0o644)
 		rot.CabundlePaths = append(rot.CabundlePaths, p)
 	}
+	for _, q := range c.Paths {
+		rot.CabundlePaths = append(rot.CabundlePaths, filepath.Join(dir, q))
+	}
 	rot.Cabundles = c.Inline
 	var o *verify.Options
 	var err error
@@ -218,7 +225,7 @@ func runRot(c *rotCase, dir string) (problem string, cfgErr bool, accepted bool)
 		return "RootOfTrustToOptions panics: " + pv + "\n" + st, false, false
 	}
 	if err != nil {
-		if !c.WantErr {
+		if !c.WantErr && !c.ErrOrReject {
 			return "configuration refused but it lists valid certificates: " + err.Error(), true, false
 		}
 		return "", true, false
@@ -234,6 +241,12 @@ func runRot(c *rotCase, dir string) (problem string, cfgErr bool, accepted bool)
 		return "verify panics: " + pv + "\n" + st, false, false
 	}
 	accepted = verr == nil
+	if c.ErrOrReject {
+		if accepted {
+			return "a configuration whose listed paths yield no certificate that signs this quote was taken without error and the quote is accepted (fell back to another trust anchor)", false, true
+		}
+		return "", false, false
+	}
 	if accepted != c.WantAccept {
 		if accepted {
 			return "quote accepted although its root is not listed in the configuration", false, true
@@ -404,7 +417,19 @@ func c02(x *mon.Ctx) {
 			&rotCase{Class: "rot-bad-bundle", Param: name + "/inline-after-good-file", Files: []string{goodPEM}, Inline: []string{bad}, Quote: qs[0].raw, Times: tms, WantErr: true},
 		)
 	}
-	// missing file
+	// listed paths that name no file (plain, or shaped like a shell pattern): never a silent fall-back to the embedded root
+	for _, q := range []string{"missing.pem", "*.pem", "no-such-?.pem", "[abc].pem", "nodir/*.pem", "{a,b}.pem", "~/roots.pem"} {
+		for k, src := range []quoteSrc{qs[3], qs[4], qs[0]} {
+			var tms [5]int64
+			for i := range tms {
+				tms[i] = src.t
+			}
+			rcs = append(rcs, &rotCase{Class: "rot-unmatched-path", Param: fmt.Sprintf("%s/quote=%s", q, src.name), Paths: []string{q}, Quote: src.raw, Times: tms, ErrOrReject: true})
+			if k == 0 { // the same after a good file listing another root
+				rcs = append(rcs, &rotCase{Class: "rot-unmatched-path", Param: fmt.Sprintf("good-file+%s/quote=%s", q, src.name), Files: []string{goodPEM}, Paths: []string{q}, Quote: src.raw, Times: tms, ErrOrReject: true})
+			}
+		}
+	}
 	for i, c := range rcs {
 		sub := filepath.Join(dir, fmt.Sprint(i))
 		_ = os.MkdirAll(sub, 0o755)
@@ -413,7 +438,7 @@ func c02(x *mon.Ctx) {
 		if p != "" {
 			x.Violation(c.Class, c.Param, p, "rot", c)
 		}
-		x.Note(c.Class, c.Param, acc, false, p == "" && (cfgErr == c.WantErr))
+		x.Note(c.Class, c.Param, acc, false, p == "" && (cfgErr == c.WantErr || c.ErrOrReject))
 		if i == 7 {
 			x.Sample(map[string]any{"class": c.Class, "param": c.Param, "files": len(c.Files), "inline": len(c.Inline), "want_accept": c.WantAccept, "accepted": acc})
 		}
@@ -421,4 +446,5 @@ func c02(x *mon.Ctx) {
 	}
 	x.Require("rot-subset", 40, 100, 150)
 	x.Require("rot-bad-bundle", 0, 0, 20)
+	x.Require("rot-unmatched-path", 0, 0, 28)
 }
